@@ -66,6 +66,11 @@ func runC20(e *core.Env, n int) {
 		}
 		if toServer {
 			sc.Kind = pick(r, ClientStream, Bidi)
+			if release != "recv" && r.Intn(4) == 0 {
+				// a method that takes a single request, driven through the raw stream API by a client that keeps
+				// sending: what the handler does not take is not accepted without bound either
+				sc.Kind = ServerStream
+			}
 			sc.Sender = append(sends, Op{Op: "close"})
 			for j := 0; j < k; j++ {
 				sc.Handler = append(sc.Handler, Op{Op: "recv"})
